@@ -5,7 +5,7 @@ import PsModel.Spec.C14
 line-protocol front end of the C14 model: replays an observed linearisation of `function.py`'s task life cycles
 
   C14 (run OP …)   OP ::= (cr t withCtx pre) | (st t) | (sc t) | (ac a t cb arg) | (rc a t cb) | (cn a t|self)
-                         | (u t key km) | (rp t) | (eb t ok|exc|can v) | (cbb t) | (cbe t ok|raises|can)
+                         | (u t key km) | (rp t) | (rw t) | (eb t ok|exc|can v) | (cbb t) | (cbe t ok|raises|can)
                          | (cl t) | (nx t) | (snap)
 
 Output `ok <model tokens> ## <spec tokens>`; the spec column says, per finished task, which callbacks the property
@@ -107,8 +107,13 @@ def stepOp (d : Drv) (x : Sexp) : Option Drv :=
     pure ((ap d (.unique t k km)).emit1 tok)
   | .list [.atom "rp", t] => do
     let t ← t.nat?
-    let ok := d.s.u.reaperQ.head? == some t
+    let ok := d.s.u.reaperQ.head? == some t && !(headUnstarted d.s && current.reaperWaitsForStart)
     pure ((ap d .reap).emit1 (if ok then "r:ok" else "r:bad"))
+  | .list [.atom "rw", t] => do
+    -- the reaper has taken the command for a task that has not started yet and waits for its first statement
+    let t ← t.nat?
+    let ok := d.s.u.reaperQ.head? == some t && headUnstarted d.s && current.reaperWaitsForStart
+    pure ((ap d .reap).emit1 (if ok then "r:wait" else "r:bad"))
   | .list [.atom "eb", t, .atom kind, v] => do
     let t ← t.nat?
     let v ← v.nat?
